@@ -106,3 +106,67 @@ Proof.
   - cbn [chained]. split; [reflexivity|]. split; [exact C|]. split; [exact E|].
     rewrite <- D. eapply quad_lines_loop_chained; eassumption.
 Qed.
+
+(* ---- CubicEdge: the same tiling ------------------------------------------------------------------------------------------------------ *)
+Lemma cubic_update_loop_rows fuel : forall c count oldx oldy c' e,
+  cubic_update_loop fuel c count oldx oldy = Some (c', Some e) ->
+  row16 oldy = Some (e_first_y e) /\ row16 (c_y c') = Some (e_last_y e + 1) /\ e_winding e = c_wind c /\ c_wind c' = c_wind c /\
+  e_first_y e <> e_last_y e + 1.
+Proof.
+  induction fuel as [|n IH]; intros c count oldx oldy c' e H; cbn [cubic_update_loop] in H; [discriminate|].
+  apply bind_some' in H. destruct H as (nxt & Enxt & H). destruct nxt as (((((newx, newy0), dx), dy), ddx), ddy).
+  apply bind_some' in H. destruct H as (r & Er & H).
+  destruct (line_update_rows _ _ _ _ _ _ Er) as (top & bottom & Rt & Rb & Hr).
+  destruct r as [e0|].
+  - injection H as H1 H2. subst c' e0. cbn [c_y c_wind]. destruct Hr as (F & L & W & NE).
+    rewrite F, L. replace (bottom - 1 + 1) with bottom by lia. repeat split; try assumption; try reflexivity; try lia.
+  - destruct (count + 1 =? 0); [discriminate|].
+    destruct (IH _ _ _ _ _ _ H) as (A & B & C & D & E). cbn [c_wind] in C, D. rewrite Rt, Hr, <- Rb. auto.
+Qed.
+
+Lemma cubic_update_rows c c' e :
+  cubic_update c = Some (c', Some e) ->
+  row16 (c_y c) = Some (e_first_y e) /\ row16 (c_y c') = Some (e_last_y e + 1) /\ e_winding e = c_wind c /\ c_wind c' = c_wind c /\
+  e_first_y e <> e_last_y e + 1.
+Proof. unfold cubic_update. destruct (0 <=? c_count c); [discriminate|]. apply cubic_update_loop_rows. Qed.
+
+Lemma cubic_lines_loop_chained fuel : forall c ls r0,
+  cubic_lines_loop fuel c = Some ls -> row16 (c_y c) = Some r0 -> chained (c_wind c) r0 ls.
+Proof.
+  induction fuel as [|n IH]; intros c ls r0 H R; cbn [cubic_lines_loop] in H; [discriminate|].
+  destruct (0 <=? c_count c); [injection H as H; subst ls; exact I|].
+  apply bind_some' in H. destruct H as (r & Er & H). destruct r as (c', oe). cbn [fst snd] in H.
+  destruct oe as [e|]; [|injection H as H; subst ls; exact I].
+  apply bind_some' in H. destruct H as (rest & Erest & H). injection H as H. subst ls.
+  destruct (cubic_update_rows _ _ _ Er) as (A & B & C & D & E).
+  cbn [chained]. rewrite R in A. injection A as A. split; [auto|]. split; [exact C|]. split; [exact E|].
+  rewrite <- D. eapply IH; eassumption.
+Qed.
+
+Lemma cubic_new2_wind p0 p1 p2 p3 sh c : cubic_new2 p0 p1 p2 p3 sh = Some (Some c) -> c_wind c = 1 \/ c_wind c = -1.
+Proof.
+  unfold cubic_new2. cbv zeta. intros E0.
+  destruct (_ <? _) in E0; cbv beta iota in E0;
+    repeat (first [ apply bind_some' in E0; destruct E0 as (? & ? & E0)
+                  | match type of E0 with context [match ?x with pair _ _ => _ end] => is_var x; destruct x end
+                  | match type of E0 with context [if ?c then _ else _] => destruct c; try discriminate end ]);
+    cbv beta iota in E0; injection E0 as E0; subst c; cbn [c_wind]; auto.
+Qed.
+
+Theorem cubic_edge_lines_chained p0 p1 p2 p3 sh ls :
+  cubic_edge_lines p0 p1 p2 p3 sh = Some ls ->
+  match ls with
+  | [] => True
+  | e :: _ => exists w, (w = 1 \/ w = -1) /\ chained w (e_first_y e) ls
+  end.
+Proof.
+  unfold cubic_edge_lines. intros H. apply bind_some' in H. destruct H as (c0 & E0 & H).
+  destruct c0 as [c|]; [|injection H as H; subst ls; exact I].
+  apply bind_some' in H. destruct H as (r & Er & H). destruct r as (c', oe). cbn [fst snd] in H.
+  destruct oe as [e|]; [|injection H as H; subst ls; exact I].
+  apply bind_some' in H. destruct H as (rest & Erest & H). injection H as H. subst ls.
+  destruct (cubic_update_rows _ _ _ Er) as (A & B & C & D & E).
+  exists (c_wind c). split; [exact (cubic_new2_wind _ _ _ _ _ _ E0)|].
+  cbn [chained]. split; [reflexivity|]. split; [exact C|]. split; [exact E|].
+  rewrite <- D. eapply cubic_lines_loop_chained; eassumption.
+Qed.
